@@ -322,6 +322,11 @@ breaking('BI2-seed-C09-r5m3', {'C09': 'BI2'}, patch='/verif/selftest/patches/see
 breaking('LEN1-seed-C10-r5m1', {'C10': 'LEN1'}, patch='/verif/selftest/patches/seed_C10_r5m1.diff')
 breaking('S9-seed-C10-r5m2', {'C10': 'S9'}, patch='/verif/selftest/patches/seed_C10_r5m2.diff')
 breaking('D3-seed-C10-r5m3', {'C11': 'D3', 'C03': 'D3'}, patch='/verif/selftest/patches/seed_C10_r5m3.diff')
+breaking('W10-seed-C02-r5m1', {'C02': 'W10'}, patch='/verif/selftest/patches/seed_C02_r5m1.diff')
+breaking('W11-seed-C02-r5m2', {'C02': 'W11'}, patch='/verif/selftest/patches/seed_C02_r5m2.diff')
+breaking('W8-seed-C02-r5m3', {'C02': 'W8'}, patch='/verif/selftest/patches/seed_C02_r5m3.diff')
+breaking('HM5-seed-C06-r5m1', {'C06': 'HM5', 'C05': 'HM5'}, patch='/verif/selftest/patches/seed_C06_r5m1.diff')
+breaking('MC3-seed-C06-r5m3', {'C06': 'MC3', 'C05': 'MC3'}, patch='/verif/selftest/patches/seed_C06_r5m3.diff')
 breaking('refix-get_gme_2qubit', {'C13': 'F2', 'C05': 'F2'}, patch_reverse='fix_78cd862.diff')
 
 # ---- behaviour-preserving edits for the second half of the round-3 rules
